@@ -242,6 +242,8 @@ impl InnerLocustDB {
             wal_size = wal_condvar.wait(wal_size).unwrap();
         }
 
+        #[cfg(feature = "verif")]
+        crate::verif::sync_point("ingest:locked");
         let mut _meta_tables_rows = vec![];
         let mut _new_column_rows = vec![];
         for (table, table_buffer) in &events.tables {
@@ -325,6 +327,8 @@ impl InnerLocustDB {
             let bytes_written = jh.join().unwrap();
             *wal_size += bytes_written;
         }
+        #[cfg(feature = "verif")]
+        crate::verif::sync_point("ingest:done");
         wal_condvar.notify_all();
     }
 
@@ -340,6 +344,8 @@ impl InnerLocustDB {
         // record the range of unflushed WAL entries, freeze table buffers, and reset WAL size.
         // After this block, ingestion is unblocked again.
         let span_freeze_buffers = tracer.start_span("freeze_buffers");
+        #[cfg(feature = "verif")]
+        crate::verif::sync_point("flush:freeze:before");
         let tables;
         let unflushed_wal_ids;
         {
@@ -364,6 +370,8 @@ impl InnerLocustDB {
             wal_condvar.notify_all();
         }
         tracer.end_span(span_freeze_buffers);
+        #[cfg(feature = "verif")]
+        crate::verif::sync_point("flush:freeze:after");
 
         // Iterate over all tables and create new partitions from frozen buffers.
         let span_batching = tracer.start_span("batching");
@@ -387,11 +395,15 @@ impl InnerLocustDB {
             }
         }
         tracer.end_span(span_batching);
+        #[cfg(feature = "verif")]
+        crate::verif::sync_point("flush:batching:done");
 
         // Persist new partitions
         if let Some(storage) = self.storage.as_ref() {
             storage.persist_partitions(new_partitions, &mut tracer);
         }
+        #[cfg(feature = "verif")]
+        crate::verif::sync_point("flush:persist:after");
 
         // Write new segments from compactions to storage and apply compaction in-memory
         let span_compaction = tracer.start_span("compaction");
@@ -428,12 +440,20 @@ impl InnerLocustDB {
             tracer.push_tracer(compaction_tracer);
         }
         tracer.end_span(span_compaction);
+        #[cfg(feature = "verif")]
+        crate::verif::sync_point("flush:compaction:done");
 
         // Update metastore and clean up orphaned partitions and WAL segments
         if let Some(storage) = self.storage.as_ref() {
             storage.persist_metastore(unflushed_wal_ids.end, &mut tracer);
+            #[cfg(feature = "verif")]
+            crate::verif::sync_point("flush:meta:after");
             storage.delete_orphaned_partitions(partitions_to_delete, &mut tracer);
+            #[cfg(feature = "verif")]
+            crate::verif::sync_point("flush:gc:partitions:after");
             storage.delete_wal_segments(unflushed_wal_ids, &mut tracer);
+            #[cfg(feature = "verif")]
+            crate::verif::sync_point("flush:gc:wal:after");
         }
 
         tracer.end_span(span_wal_flush);
@@ -518,11 +538,15 @@ impl InnerLocustDB {
         let mut maybe_compaction = None;
 
         if let Some(partition) = table.batch() {
+            #[cfg(feature = "verif")]
+            crate::verif::sync_point(&format!("flush:batch:after:{}", table.name()));
             let columns: Vec<_> = partition
                 .clone_column_handles()
                 .into_iter()
                 .map(|c| c.try_get().as_ref().unwrap().clone())
                 .collect();
+            #[cfg(feature = "verif")]
+            crate::verif::sync_point(&format!("flush:handles:after:{}", table.name()));
             let (metadata, subpartitions) = subpartition(&self.opts, columns);
             let mut subpartitions_by_last_column = BTreeMap::new();
             for (i, subpartition) in metadata.iter().enumerate() {
@@ -661,8 +685,12 @@ impl InnerLocustDB {
 
         // replace old partitions with new partition
         let span_compact_partitions = tracer.start_span("compact_partitions");
+        #[cfg(feature = "verif")]
+        crate::verif::sync_point(&format!("flush:compact:swap:before:{}", table.name()));
         table.compact(id, range.start, columns, parts);
         tracer.end_span(span_compact_partitions);
+        #[cfg(feature = "verif")]
+        crate::verif::sync_point(&format!("flush:compact:swap:after:{}", table.name()));
 
         // write new subpartitions to disk and update in-memory metastore
         let span_prepare_compact = tracer.start_span("prepare_compact");
@@ -678,6 +706,8 @@ impl InnerLocustDB {
             (table.name().to_string(), to_delete)
         });
         tracer.end_span(span_prepare_compact);
+        #[cfg(feature = "verif")]
+        crate::verif::sync_point(&format!("flush:compact:prepare:after:{}", table.name()));
 
         (to_delete, tracer)
     }
